@@ -1,7 +1,7 @@
 #!/bin/sh
 # usage: tools/seed_confirm.sh <PROP> <k>      (scratch worktree /tmp/wt-<PROP>, deliverables /tmp/seed-out-<PROP>/<k>)
 # Confirms: with the patch the crate builds, the existing suite passes and the demo FAILS; without it the demo PASSES.
-P=$1; K=$2; WT=/tmp/wt-$P; OUT=/tmp/seed-out-$P/$K
+P=$1; K=$2; WT=${WT:-/tmp/wt-$P}; OUT=/tmp/seed-out-$P/$K
 export CARGO_NET_OFFLINE=true
 cd $WT || exit 2
 git checkout -q -- src Cargo.toml 2>/dev/null
